@@ -71,6 +71,11 @@ register("THRESHOLD_DEFAULT", "src/cli.rs", r'#\[arg\(long, default_value = "([0
 register("THRESHOLD_MAX", "src/cli.rs", r"if self\.delete_threshold > ([0-9]+)", 100, "Z", ["C07"])
 
 
+# ---- C05 / C09: working-file naming
+register("TEMP_SUFFIX", "src/temp_file.rs", r'pub fn temp_path_for\(dest: &Path\) -> PathBuf \{[\s\S]*?name\.push\("([^"\\]*)"\);\s*dest\.with_file_name\(name\)', ".sy.tmp", "bytes", ["C05", "C09"])
+register("TEMP_CALLSITE", "src/transport/local.rs", r"let temp_dest = crate::temp_file::temp_path_for\(&dest\);\s*let temp_guard = TempFileGuard::new\(&temp_dest\);()", 1, "Z", ["C05", "C09"])
+
+
 def generate():
     vals, missing = {}, []
     cache = {}
@@ -80,7 +85,7 @@ def generate():
         v = None
         if m:
             try:
-                v = ev(m.group(1))
+                v = m.group(1) if kind == "bytes" else (1 if m.group(1) == "" else ev(m.group(1)))
             except Exception:
                 v = None
         if v is None:
@@ -88,10 +93,13 @@ def generate():
             v = pinned
         vals[name] = (v, pinned, kind, owners, file)
     lines = ["(* GENERATED by py/gen_constants.py from %s -- do not edit. *)" % REPO,
-             "From Coq Require Import ZArith NArith.", "Open Scope Z_scope.", ""]
+             "From Coq Require Import ZArith NArith List.", "Open Scope Z_scope.", ""]
     for name, (v, pinned, kind, owners, file) in vals.items():
         if kind == "Z":
             lines.append("Definition %s : Z := %d.  (* %s; pinned %d; used by %s *)" % (name, v, file, pinned, ",".join(owners)))
+        elif kind == "bytes":
+            lines.append("Definition %s : list N := (%s)%%N.  (* %s; %r; pinned %r; used by %s *)" % (
+                name, " :: ".join("%d" % b for b in v.encode()) + " :: nil", file, v, pinned, ",".join(owners)))
         elif kind == "N":
             lines.append("Definition %s : N := %d%%N.  (* %s; pinned %d; used by %s *)" % (name, v, file, pinned, ",".join(owners)))
     text = "\n".join(lines) + "\n"
